@@ -834,10 +834,28 @@ class IrGenerator:
             # construct a case when statement if possible
             #
 
+            # The attempt converts the branches before it is known whether it succeeds
+            # (branches that contain state transitions require the if-else fallback).
+            # Remember the state of the statemachine to undo the effects of a failed attempt.
+            sm_ctx = ir.StatemachineContext._singleton
+
+            if sm_ctx is not None:
+                sm_first = sm_ctx.first_state()
+                sm_backup = (
+                    len(sm_ctx._states),
+                    list(sm_first.code()._content),
+                    sm_first._open_block,
+                )
+
             case_when = try_gen_case_when(inp, open_blocks)
 
             if case_when is not None:
                 return case_when
+
+            if sm_ctx is not None:
+                del sm_ctx._states[sm_backup[0] :]
+                sm_first.code()._content[:] = sm_backup[1]
+                sm_first._open_block = sm_backup[2]
 
             #
             # fallback to nested if statements
